@@ -963,9 +963,15 @@ func (sa *Application) reserveInternal(node *Node, ask *Allocation) error {
 // If the reservation does not exist it returns 0 for reservations removed, if the reservation is removed it returns 1.
 // The error is set if the reservation key cannot be removed from the app or node.
 func (sa *Application) UnReserve(node *Node, ask *Allocation) int {
+	// Node.String formats the allocation and resource maps of the node without taking the node lock (it is also used
+	// while the lock is held): other goroutines change the node while this runs, log the immutable node ID only
+	nodeID := "node is nil"
+	if node != nil {
+		nodeID = node.NodeID
+	}
 	log.Log(log.SchedApplication).Info("unreserving allocation from application",
 		zap.String("appID", sa.ApplicationID),
-		zap.Stringer("node", node),
+		zap.String("nodeID", nodeID),
 		zap.Stringer("alloc", ask))
 	if node == nil || ask == nil {
 		return 0
